@@ -324,6 +324,160 @@ fn main() {
             });
         }
 
+        // ---- adapters: the public raw sub-reader adapters (header_reader() of SAM / VCF / BAM / BCF / CRAM readers)
+        //      pulled through Read::read with fixed destination sizes, read_to_end and the BufRead side, under the
+        //      adversaries (uniform + one deviation at every call); the raw bytes must equal the header text of the
+        //      document (independent structural parse) and the records read afterwards must be the document's records
+        {
+            use vnd::adapter::{self, How, RefHeader};
+            #[derive(Clone, Copy, Debug, PartialEq, Eq, Hash)]
+            enum AWrap {
+                Buf(usize),
+                Windows,
+            }
+            struct ACombo {
+                doc: usize,
+                how: How,
+                wrap: AWrap,
+                sizes: Vec<usize>,
+            }
+            let quick_docs = ["sam-mapped", "sam-full-crlf", "vcf-sites", "vcf-two-samples-crlf", "samgz-mapped-f2", "vcfgz-sites-f2", "bam-mapped-f2", "bam-padded64-split", "bamraw-padded64", "bcf-sites-f2", "bcfraw-padded64", "cram-mapped-rps3", "sam-mapped-no-final-newline", "vcf-sites-no-final-newline"];
+            let mut adocs: Vec<(usize, RefHeader, Vec<String>)> = Vec::new();
+            for (i, d) in docs.iter().enumerate() {
+                if !adapter::has_adapter(d) || d.big || d.name.starts_with("eng-") || (ctx.quick() && !quick_docs.contains(&d.name.as_str())) {
+                    continue;
+                }
+                let (Some(text), Ok(h)) = (adapter::expected_header_text(d), adapter::reference_header(d)) else { continue };
+                let mut o = Opts::for_doc(d).api(Api::Eager);
+                o.vpos = false;
+                let spec = vnd::read_log(d.format, &d.bytes[..], &o);
+                let mut want = vec![adapter::raw_line(&text)];
+                if d.format == Format::Bam {
+                    if let RefHeader::Sam(sh) = &h {
+                        want.push(format!("refs: n={} [{}]", sh.reference_sequences().len(), sh.reference_sequences().keys().map(|k| vnd::esc(k)).collect::<Vec<_>>().join(",")));
+                    }
+                }
+                want.extend(spec.iter().skip(1).cloned());
+                adocs.push((i, h, want));
+            }
+            let run_adapter = |d: &Doc, h: &RefHeader, how: How, wrap: AWrap, mode: ReadMode| -> (Vec<String>, Vec<usize>) {
+                let mut o = Opts::for_doc(d).api(Api::Eager);
+                o.vpos = false;
+                match wrap {
+                    AWrap::Buf(c) => {
+                        let r = ChunkReader::new(d.bytes.clone(), mode, None).with_boundaries(d.boundaries.clone());
+                        let env = r.log.clone();
+                        let log = adapter::adapter_log(d.format, d.raw, io::BufReader::with_capacity(c, r), &o, how, h);
+                        let env = env.lock().unwrap().clone();
+                        (log, env)
+                    }
+                    AWrap::Windows => {
+                        let inner = ChunkBufRead::new(d.bytes.clone(), mode, None).with_boundaries(d.boundaries.clone());
+                        let wl = Arc::new(Mutex::new(Vec::new()));
+                        let log = adapter::adapter_log(d.format, d.raw, LogBuf { inner, log: wl.clone() }, &o, how, h);
+                        let env: Vec<usize> = wl.lock().unwrap().iter().copied().filter(|&x| x < usize::MAX / 2).collect();
+                        (log, env)
+                    }
+                }
+            };
+            let mut acombos: Vec<ACombo> = Vec::new();
+            for (ai, (i, h, _)) in adocs.iter().enumerate() {
+                let d = &docs[*i];
+                let text = adapter::expected_header_text(d).unwrap_or_default();
+                let mut lens: Vec<usize> = text.split_inclusive(|&c| c == b'\n').map(|l| l.len()).collect();
+                lens.sort_unstable();
+                lens.dedup();
+                let lmax = lens.last().copied().unwrap_or(10);
+                let lmin = lens.first().copied().unwrap_or(10);
+                let mut hows = vec![How::Read(1), How::Read(3), How::Read(lmax + 1), How::Read(8192), How::Read(8193), How::ReadToEnd, How::FillBuf];
+                if ctx.thorough() {
+                    for n in [2, lmin.saturating_sub(1).max(1), lmin, lmin + 1, lmax.saturating_sub(1).max(1), lmax, 8191] {
+                        if !hows.contains(&How::Read(n)) {
+                            hows.push(How::Read(n));
+                        }
+                    }
+                }
+                let wraps: Vec<AWrap> = if d.format.needs_bufread() {
+                    let mut w = vec![AWrap::Buf(3), AWrap::Buf(17), AWrap::Buf(64), AWrap::Buf(8192), AWrap::Windows];
+                    if ctx.thorough() {
+                        w.push(AWrap::Buf(1));
+                    }
+                    w
+                } else {
+                    // capacity 0 = every read goes straight to the adversary
+                    vec![AWrap::Buf(0), AWrap::Buf(64), AWrap::Buf(8192)]
+                };
+                for &how in &hows {
+                    for &wrap in &wraps {
+                        let (_, sizes) = run_adapter(d, h, how, wrap, ReadMode::Full);
+                        acombos.push(ACombo { doc: ai, how, wrap, sizes });
+                    }
+                }
+            }
+            let fixed: Vec<(ReadMode, &'static str)> = vec![
+                (ReadMode::Full, "full-transfers"),
+                (ReadMode::OneByte, "one-byte"),
+                (ReadMode::InterruptEvery, "interrupt-every"),
+                (ReadMode::Irregular, "irregular"),
+                (ReadMode::Pattern(vec![18, 1, 8, 0, 4096]), "pattern"),
+                (ReadMode::Pattern(vec![64, 0, 64, 64, 0, 1]), "pattern"),
+            ];
+            let (docs, adocs, acombos, fixed, run_adapter) = (&docs, &adocs, &acombos, &fixed, &run_adapter);
+            let all: Vec<usize> = (0..acombos.len()).collect();
+            let all = &all;
+            ctx.harness(Config::new("adapters", 0), move |ch: &Chooser| -> Outcome {
+                let c = &acombos[*ch.pick_free("combo", all)];
+                let (di, h, want) = &adocs[c.doc];
+                let d = &docs[*di];
+                let n_dev = if c.sizes.len() <= 1500 { c.sizes.len() } else { 0 };
+                let m = ch.free("adversary", fixed.len() + n_dev);
+                let (mode, name) = if m < fixed.len() {
+                    fixed[m].clone()
+                } else {
+                    let k = m - fixed.len();
+                    let alt = match c.wrap {
+                        AWrap::Buf(_) => {
+                            let pos: usize = c.sizes[..k].iter().sum();
+                            1 + ch.free("alt", menu_len(pos, c.sizes[k].max(1), &d.boundaries) - 1)
+                        }
+                        AWrap::Windows => 1 + ch.free("alt", 5),
+                    };
+                    (ReadMode::DeviateAt(k as u64, alt), "deviate-at-one-call")
+                };
+                ch.desc(|| format!("doc={} adapter pulled with {:?} over {:?}, adversary={mode:?}", d.name, c.how, c.wrap));
+                let (log, env) = run_adapter(d, h, c.how, c.wrap, mode);
+                ch.obs_hash((c.doc, c.how, c.wrap, &env));
+                ch.steps(env.len() as u64);
+                if env.contains(&0) {
+                    ch.tag("Interrupted delivered");
+                }
+                match compare(want, &log) {
+                    None => Ok(()),
+                    Some((symptom, exp, obs)) => {
+                        let how = match c.how {
+                            How::Read(_) => "read",
+                            How::ReadToEnd => "read_to_end",
+                            How::FillBuf => "fill_buf",
+                        };
+                        Err(Violation::new(
+                            format!("format={} api=header_reader({how}) symptom={symptom}", d.format),
+                            format!(
+                                "doc={} ({} bytes): header_reader() adapter pulled with {:?}, source = {:?} over the adversary ({name}); read sizes delivered (I = Interrupted): {}; bytes (hex): {}",
+                                d.name,
+                                d.bytes.len(),
+                                c.how,
+                                c.wrap,
+                                env_summary(&env),
+                                if d.bytes.len() <= 1600 { hex_full(&d.bytes) } else { vmc::hex(&d.bytes) }
+                            ),
+                            format!("raw bytes = the header text of the document, then the document's records; {exp}"),
+                            obs,
+                        ))
+                    }
+                }
+            });
+        }
+
         // ---- reuse: one record buffer reused across the whole document vs a fresh buffer per record (plain slice)
         {
             let docs = &docs;
